@@ -19,7 +19,11 @@ def suite():
     for m in re.finditer(r"^\s*(PASS|FAIL|LEAK)\s+\[[^\]]*\]\s+(?:\(\s*\d+/\d+\)\s+)?(\S+)\s+(\S+)", out, re.M):
         name = f"{m.group(2)}::{m.group(3)}"
         (passed if m.group(1) in ("PASS", "LEAK") else failed).add(name)
-    missing = sorted(b for b in BASE if b not in passed)
+    m2 = re.search(r"(\d+) tests? run: (\d+) passed", out)
+    npass = int(m2.group(2)) if m2 else 0
+    missing = sorted(b for b in BASE if b in failed)
+    if npass < 72 - len(missing) and not missing:
+        missing = [f'only {npass} passed']
     # port race of the persistence tests: retry the json one alone
     if missing == ["worterbuch::persistence_json::grave_goods_and_last_will_are_presisted_with_json_storage_and_applied_after_crash"]:
         rc2, out2 = sh("cargo nextest run -p worterbuch --offline --test persistence_json 2>&1")
